@@ -505,6 +505,6 @@ def run(spec, ctx):
             if idx % 60 == 0:
                 ctx.sample(case)
         except Exception as exc:
-            ctx.error(f"case {spec['kind']} {idx}", exc)
+            ctx.raised("c14.no_exception", f"case {spec['kind']} {idx}", exc)
         finally:
             shutil.rmtree(tmp, ignore_errors=True)
